@@ -170,13 +170,14 @@ class UninitBox:
 
 
 class Adt:
-    __slots__ = ("path", "vi", "vname", "fields")
+    __slots__ = ("path", "vi", "vname", "fields", "gen")
 
     def __init__(self, path, vi, vname, fields):
         self.path = path
         self.vi = vi
         self.vname = vname
         self.fields = fields
+        self.gen = None  # closures: generic bindings of the frame that created them
 
     def __repr__(self):
         if not self.fields:
@@ -829,7 +830,9 @@ class Interp:
                     return RangeIter(ops[0], ops[1])
                 return Adt(self.P.norm(p, False), kind["vi"], kind["variant"], ops)
             if kind["k"] == "closure":
-                return Adt("closure:" + self.P.norm(kind["path"], False), 0, "closure", ops)
+                ca = Adt("closure:" + self.P.norm(kind["path"], False), 0, "closure", ops)
+                ca.gen = fr.gen or None
+                return ca
             raise Unsupported("aggregate %r" % (kind,))
         if k == "disc":
             v = self.read(fr, rv[1])
